@@ -70,6 +70,27 @@ pub const FOCUS_VALIDATION: Granularity = Granularity::Focus(
     ],
 );
 
+/// Focus on the hand-over between speculation and ordered commit: where attempts start and read,
+/// where a candidate is locked and published as final, where its result is taken, applied to the
+/// shared cache, published as committed and where waiting work is released - plus the cache fills
+/// that race with the application.
+pub const FOCUS_COMMIT: Granularity = Granularity::Focus(
+    "focus-commit",
+    &[
+        grevm_verif_rt::pt::EXEC_BEGIN,
+        grevm_verif_rt::pt::MV_READ,
+        grevm_verif_rt::pt::FINALITY_LOCK,
+        grevm_verif_rt::pt::FINALITY_PUBLISH,
+        grevm_verif_rt::pt::COMMIT_TAKE,
+        grevm_verif_rt::pt::COMMIT_APPLY,
+        grevm_verif_rt::pt::COMMIT_PUBLISH,
+        grevm_verif_rt::pt::COMMIT_RELEASE,
+        grevm_verif_rt::pt::DB_FILL_BASIC,
+        grevm_verif_rt::pt::DB_FILL_STORAGE,
+        grevm_verif_rt::pt::EXECUTION_CLAIMED,
+    ],
+);
+
 pub fn jobs(prop: &str, tier: Tier) -> Vec<Job> {
     match prop {
         "C01" => c01::jobs(tier),
